@@ -96,7 +96,7 @@ impl Property for C37 {
         ]
     }
     fn cases(&self, tier: Tier) -> u32 {
-        tier.pick(500_000, 10_000_000)
+        tier.pick(1_200_000, 20_000_000)
     }
     fn strategy(&self, tier: Tier) -> BoxedStrategy<Case> {
         let max_blocks = tier.pick(6, 14);
